@@ -21,6 +21,7 @@ structure TSpec where
   inject    : Nat := 0
   group     : Nat := 0
   tick      : Nat := 0                     -- > 0: periodic signal (no SA_RESTART) while the parent waits
+  ign       : Bool := false                -- the registry entry is an IgnoredUtestShell
 deriving Inhabited
 
 structure DState where
@@ -30,6 +31,7 @@ structure DState where
   cliArgs : List String := []              -- argv after the program name
   nproc0 : Bool := false                   -- the runner cannot fork (RLIMIT_NPROC 0): the real fork seam fails
   nofork : Bool := false                   -- the harness links the build variant without fork/waitpid/kill
+  ri     : Bool := false                   -- registry.setRunIgnored() (API mode)
 deriving Inhabited
 
 def hexNat? (s : String) : Option Nat :=
@@ -100,6 +102,11 @@ def applyOp (d : DState) (op : List String) : Option DState :=
     match t.toNat?, g.toNat? with
     | some t, some g => if t < d.tests.size && g < 1000 then some { d with tests := d.tests.modify t (fun s => { s with group := g }) } else none
     | _, _ => none
+  | ["ign", t] =>
+    match t.toNat? with
+    | some t => if t < d.tests.size then some { d with tests := d.tests.modify t (fun s => { s with ign := true }) } else none
+    | none => none
+  | ["ri"] => if !d.tests.isEmpty && !d.ri then some { d with ri := true } else none
   | ["tick", t, us] =>
     match t.toNat?, us.toNat? with
     | some t, some us => if t < d.tests.size && 100 ≤ us && us ≤ 1000000 then
@@ -213,6 +220,39 @@ def readObs (n : Nat) (obs : List (List String)) : RunObs :=
 
 def hexOfString (s : String) : String := Proto.hex s.toUTF8.toList
 
+def terminatingSignals : List Nat :=
+  [1, 2, 3, 4, 5, 6, 7, 8, 9, 10, 11, 12, 13, 14, 15, 16, 24, 25, 26, 27, 29, 30, 31]
+
+def hexNatStr (n : Nat) : String := String.ofList (Nat.toDigits 16 n)
+
+/-- what the child does, as steps of the child-side model: a plugin action's `fail K` adds K+1
+    failures and goes on, a failed check in setup/body/teardown adds one and leaves the phase,
+    `exit n` and a terminating signal end the process -/
+def childSteps (phase : String) : List (String × Nat) → List ChildStep
+  | [] => []
+  | (a, n) :: rest =>
+    if a == "fail" then
+      (if phase == "pre" || phase == "post" then .adds (min n 1023 + 1) :: childSteps phase rest else [.adds 1])
+    else if a == "exit" then [.dies (BitVec.ofNat 32 (n % 256 * 256))]
+    else if a == "signal" && terminatingSignals.contains n then [.dies (BitVec.ofNat 32 n)]
+    else childSteps phase rest
+
+def stepsAdded : List ChildStep → Option Nat
+  | [] => some 0
+  | .adds k :: rest => (stepsAdded rest).map (k + ·)
+  | .dies _ :: _ => none
+
+/-- the status the child ends with: the hand model (`childStatus`) and, for a child that reaches its
+    `_exit`, the argument regenerated from the AST (`genChildStatus`) — printed only when they agree -/
+def childStatusLine (t initial : Nat) (s : TSpec) : String :=
+  let steps := childSteps s.phase s.actions
+  let hand := childStatus initial initial steps
+  match stepsAdded steps with
+  | some k =>
+    let g := genChildStatus initial (initial + k)
+    if g == hand then s!"childst {t} {hexNatStr hand.toNat}" else s!"childst {t} model-hand={hexNatStr hand.toNat} model-ast={hexNatStr g.toNat}"
+  | none => s!"childst {t} {hexNatStr hand.toNat}"
+
 /-- scripts the model runs: a stubbed test's list is followed by the harness stub's answer to
     every further call (exit status 0, flagged `starved`); a real test's list is what the real
     waitpid returned -/
@@ -220,7 +260,7 @@ def scriptOf (s : TSpec) (o : TObs) : TestScript :=
   if s.real then { forkOk := !s.forkFails && o.forked != ["realfail"], outs := o.rwaits }
   else { forkOk := !s.forkFails, outs := s.outs ++ [.status 0#32] }
 
-def modelTestLines (t : Nat) (s : TSpec) (o : TObs) : List String :=
+def modelTestLines (t initial : Nat) (s : TSpec) (o : TObs) : List String :=
   let sc := scriptOf s o
   let r := runSeparate sc
   let realFail := s.real && o.forked == ["realfail"]
@@ -231,16 +271,17 @@ def modelTestLines (t : Nat) (s : TSpec) (o : TObs) : List String :=
     if s.real then (if r.ended == .starved then [s!"starved {t}"] else [])
     else (if r.consumed > s.outs.length then [s!"starved {t}"] else [])
   let counts := if s.real then [] else [s!"consumed {t} {r.consumed}", s!"conts {t} {r.conts}"]
-  let fails := r.failures.map (fun f => s!"fail {t} {hexOfString f.text}")
-  head ++ env ++ starved ++ counts ++ fails ++ [s!"ended {t}"]
+  -- the parent's failures: the hand model's, which must be what the function regenerated from the AST adds
+  let g := genRunSeparate sc
+  let fails := if g == r.gen then r.failures.map (fun f => s!"fail {t} {hexOfString f.text}")
+               else [s!"fail {t} model-hand-and-model-ast-differ"]
+  let childst := if s.real && r.ended == .childGone && !s.forkFails && !realFail then [childStatusLine t initial s] else []
+  head ++ env ++ starved ++ counts ++ childst ++ fails ++ [s!"ended {t}"]
 
 /-- a test the registry does not fork runs inside the runner (never happens with the placement
     the source has; kept so that the model follows the regenerated placement) -/
 def inRunnerLines (t : Nat) (s : TSpec) : List String :=
   [s!"started {t}", s!"inrunner {t}"] ++ (if s.real then [] else [s!"consumed {t} 0", s!"conts {t} 0"]) ++ [s!"ended {t}"]
-
-def terminatingSignals : List Nat :=
-  [1, 2, 3, 4, 5, 6, 7, 8, 9, 10, 11, 12, 13, 14, 15, 16, 24, 25, 26, 27, 29, 30, 31]
 
 /-- how many failure texts the child itself prints (ConsoleTestOutput flushes after every print,
     and the child shares the parent's stdout): one per `fail` action that is reached; a failed
@@ -248,7 +289,7 @@ def terminatingSignals : List Nat :=
 def childTexts (phase : String) : List (String × Nat) → Nat
   | [] => 0
   | (a, n) :: rest =>
-    if a == "fail" then (if phase == "pre" || phase == "post" then 1 + childTexts phase rest else 1)
+    if a == "fail" then (if phase == "pre" || phase == "post" then (min n 1023 + 1) + childTexts phase rest else 1)
     else if a == "exit" then 0
     else if a == "signal" && terminatingSignals.contains n then 0
     else childTexts phase rest
@@ -263,6 +304,16 @@ def runOrder (d : DState) (ro : RunObs) : List Nat :=
   if d.cli && cliShuffle d.cliArgs then (if isPermOfRange ro.order n then ro.order else List.range n)
   else if d.cli && cliReverse d.cliArgs then (List.range n).reverse
   else List.range n
+
+/-- is run-ignored in effect for this run (API: `ri`; command line: `-ri` as `initializeTestRun` forwards it) -/
+def runIgnoredIn (d : DState) : Bool :=
+  if d.cli then runIgnoredOn (cliSwitches d.cliArgs) else d.ri
+
+/-- an `IGNORE_TEST` entry without run-ignored is only counted as ignored -/
+def notRunIn (d : DState) (t : Nat) : Bool := (d.tests[t]!).ign && !runIgnoredIn d
+
+def notRunLines (t : Nat) (s : TSpec) : List String :=
+  [s!"started {t}"] ++ (if s.real then [] else [s!"consumed {t} 0", s!"conts {t} 0"]) ++ [s!"ended {t}"]
 
 /-- the fork-less build: every test gets the platform's one failure, nothing is forked -/
 def modelRunNoFork (d : DState) (ro : RunObs) : List String :=
@@ -285,21 +336,25 @@ def modelRun (d : DState) (obs : List (List String)) : List String :=
   let ro := readObs n obs
   if d.nofork then modelRunNoFork d ro else
   let order := runOrder d ro
-  let regs : List RegTest := order.map (fun t =>
-    { group := (d.tests[t]!).group, script := scriptOf (d.tests[t]!) (ro.per[t]!) })
-  let st := if d.cli then runCommandLine (cliSwitches d.cliArgs) regs else runRegistry regs
+  let regs : List KTest := order.map (fun t =>
+    { kind := if (d.tests[t]!).ign then .ignored else .normal,
+      group := (d.tests[t]!).group, script := scriptOf (d.tests[t]!) (ro.per[t]!) })
+  let st := if d.cli then runCommandLineKinds (cliSwitches d.cliArgs) regs else runKinds d.ri regs
   let testAt (p : Nat) : Nat := order.getD p 0
   let per := st.started.flatMap (fun p =>
     let t := testAt p
-    if st.inRunner.contains p then inRunnerLines t (d.tests[t]!) else modelTestLines t (d.tests[t]!) (ro.per[t]!))
+    if st.inRunner.contains p then inRunnerLines t (d.tests[t]!)
+    else if notRunIn d t then notRunLines t (d.tests[t]!)
+    else modelTestLines t ((st.failures.filter (·.1 < p)).length) (d.tests[t]!) (ro.per[t]!))
   let cliLines := if d.cli then [s!"exitcode {st.exitCode}"] else []
   let texts := if d.cli then
       (List.range n).filterMap (fun t =>
         let s := d.tests[t]!
         if s.real && s.inject == 0 && !s.forkFails && (ro.per[t]!).forked != ["realfail"] then
-          some s!"childtext {t} {if cliJUnitOnly d.cliArgs then 0 else childTexts s.phase s.actions}" else none)
+          some s!"childtext {t} {if cliJUnitOnly d.cliArgs || notRunIn d t then 0 else childTexts s.phase s.actions}" else none)
     else []
-  per ++ [s!"runcount {st.runCount}", s!"failures {st.failureCount}",
+  -- API mode prints `TestResult::getRunCount()`, cli mode the number of tests the output saw starting
+  per ++ [s!"runcount {if d.cli then st.started.length else st.runCount}", s!"failures {st.failureCount}",
           "overall " ++ (if st.overallFailure then "fail" else "ok")] ++ cliLines ++
          ["summary " ++ (if st.overallFailure then "errors" else "ok")] ++ texts
 
@@ -532,11 +587,18 @@ def specRun (d : DState) (obs : List (List String)) : Except String Unit := do
   let expectedOrder := runOrder d ro
   if ro.order != expectedOrder then throw s!"tests started {ro.order}, expected all of {expectedOrder} (later tests must still run)"
   for t in List.range n do
+    if notRunIn d t then
+      -- an IGNORE_TEST without run-ignored is outside the property (it is not run); it must not have been forked or run
+      if !(ro.per[t]!).forked.isEmpty || !(ro.per[t]!).fails.isEmpty then
+        throw s!"test {t} is an IGNORE_TEST and run-ignored is off, but it was run ({(ro.per[t]!).forked} {(ro.per[t]!).fails})"
+      continue
     specTest t (d.tests[t]!) (ro.per[t]!)
     if d.nproc0 && (d.tests[t]!).real && !(d.tests[t]!).forkFails && (ro.per[t]!).forked != ["realfail"] then
       throw s!"test {t}: this process cannot fork (RLIMIT_NPROC 0) but the real fork seam reported no failure"
   let total := (List.range n).foldl (fun acc t => acc + (ro.per[t]!).fails.length) 0
-  if ro.runcount != some n then throw s!"run count {ro.runcount} for {n} tests"
+  let notRun := ((List.range n).filter (notRunIn d)).length
+  let expectedRuns := if d.cli then n else n - notRun
+  if ro.runcount != some expectedRuns then throw s!"run count {ro.runcount} for {n} tests ({notRun} ignored)"
   if ro.failures != some total then throw s!"failure count {ro.failures} but {total} failures were recorded"
   if total > 0 && (ro.overall != "fail" || ro.summary != "errors") then
     throw s!"{total} failures but the overall result is {ro.overall}/{ro.summary}"
